@@ -244,11 +244,12 @@ pub fn digest(s: &str) -> u32 {
     h
 }
 
-/// A method handler starts with this: logs `Name(args)` and returns the digest of that entry.
-pub fn entry(name: &str, args: &[Val]) -> u32 {
+/// A method handler starts with this: logs `<tag>#Name(args)` (tag = the path the instance was registered
+/// at) and returns the digest of `Name(args)`.
+pub fn entry(tag: &str, name: &str, args: &[Val]) -> u32 {
     let e = format!("{}({})", name, toks(args));
     let h = digest(&e);
-    log(e);
+    log(format!("{tag}#{e}"));
     h
 }
 
